@@ -16,7 +16,7 @@ for d in sorted(glob.glob(os.path.join(V, "seeded", "*-cm*"))):
     meta = json.load(open(os.path.join(d, "meta.json")))
     items.append((os.path.basename(d), os.path.join(d, "patch.diff"), [meta["property"]], meta.get("summary", "")))
 for m in json.load(open(os.path.join(V, "selftest", "refactor", "index.json"))):
-    if m["name"].split("-")[0] in ("H9", "H10", "H11", "H12", "H13", "H14", "H15", "H16", "H17", "H18", "H19"):
+    if m["name"].split("-")[0] in ("H9", "H10", "H11", "H12", "H13", "H14", "H15", "H16", "H17", "H18", "H19", "H20", "H21", "H22", "H23"):
         items.append(("ref-" + m["name"], os.path.join(V, "selftest", "refactor", m["name"] + ".diff"), [], m["what"]))
 full = "--full" in sys.argv
 for label, patch, breaks, what in items:
